@@ -16,3 +16,4 @@ pub mod c09;
 pub const RULE_C05: &str = "the generated cases of the component checks (real single-input Start with arbitrary arrival orders, two-input Start without cache, fold / keyed fold / second-phase fold, count windows, event-time and transaction windows, every join algorithm, reorder and sequential chains), each re-evaluated against the protocol grammar at the component's output and against the component's per-round exactness predicate; non-trivial / distinct as in the component checks";
 pub const RULE_C06: &str = "the generated cases of the component checks that carry timestamps and watermarks (real single-input Start, fold / keyed fold, count windows, event-time windows, reorder, flat_map chains), re-evaluated against watermark safety of the component's output whenever its inputs are safe; non-trivial / distinct as in the component checks";
 pub mod muxjoin;
+pub mod meet;
